@@ -308,6 +308,9 @@ def _local_def(name):
 
 def _key_shape(e, base, _depth=0):
     """shape of a busy-list key expression: list of ('fld', attr) / ('lit', text) / ('dflt', attr, text)"""
+    # `d if not x else x` is `x if x else d`
+    while isinstance(e, ast.IfExp) and isinstance(e.test, ast.UnaryOp) and isinstance(e.test.op, ast.Not):
+        e = ast.IfExp(test=e.test.operand, body=e.orelse, orelse=e.body)
     if isinstance(e, ast.Name) and e.id != base and _depth < 4:
         d = _local_def(e.id)
         if d is not None:
